@@ -1156,6 +1156,25 @@ def h5Of (t : WTable) (omdNames smdNames : List String) : H5 :=
       omdNames.map (fun k => (["observation", "metadata", k], Node.ds (some t.obs.length) (.other t.obs.length))) ++
       smdNames.map (fun k => (["sample", "metadata", k], Node.ds (some t.samp.length) (.other t.samp.length))) }
 
+/-- the shape invariants of a file `to_hdf5` writes for a table with a vocabulary type, stated on the
+    tree alone (the harness evaluates this on every file the real writer produced) -/
+def writerTreeB (dateOk : String → Bool) (h : H5) : Bool :=
+  (match h.attr "format-url" with | some (.str s) => s == formatURL | _ => false) &&
+  (h.attr "format-version" == some (.ints [2, 1])) &&
+  (match h.attr "type" with | some (.str s) => vocabType s | _ => false) &&
+  (match h.attr "nnz" with | some (.int i) => decide (0 ≤ i) | _ => false) &&
+  (match h.attr "generated-by" with | some (.str s) => s.toList != [] | _ => false) &&
+  (h.attr "id").isSome &&
+  (match h.attr "creation-date" with | some (.str s) => dateOk s | _ => false) &&
+  coreGroups.all h.has && mdGroups.all h.has && requiredDatasets.all h.has &&
+  (match h.attr "shape", h.lenOf ["observation", "ids"], h.lenOf ["sample", "ids"] with
+   | some (.ints [r, c]), some n, some m =>
+     (n : Int) == r && (m : Int) == c &&
+     h.get ["observation", "metadata"] == some .group && h.get ["sample", "metadata"] == some .group &&
+     (h.children ["observation", "metadata"]).all (fun c => (h.lenOf c.1).isSome) &&
+     (h.children ["sample", "metadata"]).all (fun c => (h.lenOf c.1).isSome)
+   | _, _, _ => false)
+
 /-! ### mutation grammar (HDF5) -/
 
 inductive HAxis where
@@ -1446,9 +1465,10 @@ def handleH5 (req : Json) : R Json := do
   let linesAgree := match nlines with
     | some n => mv == .crash || n == ml
     | none => true
-  let agree := applyAgree && mv == verdict && linesAgree
+  let writerOk := !isBase || writerTreeB dateOk tree
+  let agree := applyAgree && mv == verdict && linesAgree && writerOk
   let what := (if applyAgree then [] else ["apply"]) ++ (if mv == verdict then [] else ["verdict"]) ++
-    (if linesAgree then [] else ["report_lines"])
+    (if linesAgree then [] else ["report_lines"]) ++ (if writerOk then [] else ["writer_invariants"])
   pure (Json.mkObj (verdictToJson h ++ [("agree", .bool agree), ("differs", strsToJson what),
     ("model", Json.mkObj [("verdict", .str mv.name), ("nlines", toJson ml), ("exit", toJson (exitStatus mv)),
       ("corrupt", .bool (corruptH tree)), ("violated", strsToJson (violatedH tree))])]))
